@@ -211,6 +211,11 @@ class SSHKnownHosts:
             host = f'[{host}]:{port}' if host else ''
             addr = f'[{addr}]:{port}' if addr else ''
 
+            # Address and CIDR patterns name the plain (default port)
+            # address, so they are only consulted when matching without
+            # a port, just like exact entries for an undecorated address
+            ip = None
+
         matches = []
         if host:
             matches += self._exact_entries.get(host, [])
